@@ -1,5 +1,6 @@
 import MdkVerif.Model.Codec
 import MdkVerif.Model.Tags
+import MdkVerif.Model.Media
 /- line protocol for the `codec` engine (C15): one op per line, one observation per line.
    Same syntax as harness/src/codec.rs; only the part left of ` | ` is produced here. -/
 namespace Driver.CodecDrv
@@ -145,7 +146,7 @@ def kpParseOp (toks : List String) : Option String := do
     | "real" => some (Content.ok, pkA, refR, refR)
     | "otherkp" => some (Content.ok, pkA, refR2, refR)
     | "foreign" => some (Content.ok, pkB, refR3, refR3)
-    | "trail" => some (Content.ok, pkA, refR, refR)    -- the remainder after the key package is not inspected
+    | "trail" => some (Content.trailing, pkA, refR, refR)
     | "nb64" => some (Content.notBase64, pkA, refR, refR)
     | "garbage" => some (Content.badMls, pkA, refR, refR)
     | "trunc" => some (Content.badMls, pkA, refR, refR)
@@ -162,10 +163,14 @@ def welcomeValidateOp (toks : List String) : Option String := do
 
 def welcomeCreateOp (toks : List String) : Option String := do
   let relays ← hexList (← field toks "relays")
-  let tags := welcomeCreate relays eventIdHex
-  let ok := validateWelcome stdEnv { kind := Generated.kindMlsWelcome, tags := tags }
-  pure ("kind=" ++ toString Generated.kindMlsWelcome ++ " tags=" ++ showTags [("$E", eventIdHex)] tags ++
-        " verdict=" ++ (if ok then "ok" else "reject"))
+  let content := if field toks "content" == some "trail" then Content.trailing else Content.ok
+  match inviteTags relays eventIdHex with
+  | none => pure "err create"
+  | some tags =>
+    let verdict := match processWelcome stdEnv { rumor := { kind := Generated.kindMlsWelcome, tags := tags }, content := content } with
+      | .ok => "ok" | .invalid => "reject" | .errWelcome => "err:welcome"
+    pure ("kind=" ++ toString Generated.kindMlsWelcome ++ " tags=" ++ showTags [("$E", eventIdHex)] tags ++
+          " verdict=" ++ verdict)
 
 def hexGidOp (toks : List String) : Option String := do
   let tags ← parseTags [] (← field toks "tags")
@@ -209,6 +214,17 @@ def imetaParseOp (toks : List String) : Option String := do
   let t ← tags.head?
   pure (showImeta " " (imetaParse t))
 
+def mediaPairOp (toks : List String) : Option String := do
+  let h1 ← unhex (← field toks "h1")
+  let m1 ← unhex (← field toks "m1")
+  let f1 ← unhex (← field toks "f1")
+  let h2 ← unhex (← field toks "h2")
+  let m2 ← unhex (← field toks "m2")
+  let f2 ← unhex (← field toks "f2")
+  let sameCtx := MdkVerif.Media.keyContext h1 m1 f1 == MdkVerif.Media.keyContext h2 m2 f2
+  let sameAad := MdkVerif.Media.aad h1 m1 f1 == MdkVerif.Media.aad h2 m2 f2
+  pure ("ctx=" ++ (if sameCtx then "same" else "diff") ++ " aad=" ++ (if sameAad then "open" else "fail"))
+
 def exec (toks : List String) : String :=
   let r := match toks with
     | "pool" :: _ => some "ok"
@@ -221,6 +237,7 @@ def exec (toks : List String) : String :=
     | "hex_gid" :: _ => hexGidOp toks
     | "imeta_create" :: _ => imetaCreateOp toks
     | "imeta_parse" :: _ => imetaParseOp toks
+    | "media_pair" :: _ => mediaPairOp toks
     | _ => none
   r.getD "bad-op"
 
